@@ -2,7 +2,7 @@
    libraries are universally quantified functions constrained by the contracts
    paccept_complete / paccept_sound / pload_contract / vload_contract / hts_iter_contract /
    hts_region_contract of C07_Proofs). *)
-From HV Require Import Prelude BpText C07_Text C07_Files C07_Model C07_Check C07_ProofsText C07_Proofs.
+From HV Require Import Prelude BpText C07_Text C07_Files C07_Model C07_Check C07_ProofsText C07_Proofs C07_ProofsWide.
 
 (* the chunk loop "for start in range(0, len(l), c): l[start:start+c]" visits
    every element exactly once, in order, for every list and every c >= 1 *)
@@ -278,7 +278,8 @@ Print Assumptions C07_empty_back_spec.
 
 Theorem C07_holds_pgen_sound :
   forall k, holds_pgen k = true ->
-  geno_domb false (pc_g k) = true -> chunk_dom (pc_cw k) -> chunk_dom (pc_cr k) ->
+  geno_domb false (pc_g k) = true -> pos_domb true (pc_g k) = true ->
+  chunk_dom (pc_cw k) -> chunk_dom (pc_cr k) ->
   pc_wpre k = false -> pc_rpre k = false ->
   exists g', pc_back k = Ok g'
     /\ (g_variants (pc_g k) <> [] -> rt_rel (pc_g k) g')
@@ -287,7 +288,8 @@ Proof. exact holds_pgen_sound. Qed.
 Print Assumptions C07_holds_pgen_sound.
 
 Theorem C07_holds_pgen_sound_nosamples :
-  forall k, holds_pgen k = true -> geno_domb0 true (pc_g k) = true -> chunk_dom (pc_cw k) -> chunk_dom (pc_cr k) ->
+  forall k, holds_pgen k = true -> geno_domb0 true (pc_g k) = true -> pos_domb true (pc_g k) = true ->
+  chunk_dom (pc_cw k) -> chunk_dom (pc_cr k) ->
   g_samples (pc_g k) = [] -> g_variants (pc_g k) <> [] ->
   match pc_back k with
   | Ok g' => empty_rel (pc_g k) g'
@@ -297,7 +299,7 @@ Proof. exact holds_pgen_sound_nosamples. Qed.
 Print Assumptions C07_holds_pgen_sound_nosamples.
 
 Theorem C07_holds_vcf_sound :
-  forall k, holds_vcf k = true -> geno_domb0 true (vc_g k) = true ->
+  forall k, holds_vcf k = true -> geno_domb0 true (vc_g k) = true -> pos_domb false (vc_g k) = true ->
   vc_wpre k = false -> vc_rpre k = false ->
   exists g', vc_back k = Ok g'
     /\ (g_samples (vc_g k) <> [] -> g_variants (vc_g k) <> [] -> rt_rel (vc_g k) g')
@@ -332,3 +334,255 @@ Theorem C07_hypotheses_satisfiable :
   /\ chunk_dom None /\ chunk_dom (Some 1).
 Proof. exact roundtrip_hypotheses_satisfiable. Qed.
 Print Assumptions C07_hypotheses_satisfiable.
+
+(* ---- widths: the whole range of allele indices, the positions, what is refused --------- *)
+
+(* every allele index of the domain - 0 up to 254 for a variant with 255 alleles - that is not
+   the missing value is handed to pgenlib and to pysam as itself ... *)
+Theorem C07_index_written :
+  forall na a, allele_domb na a = true -> na <= 255 -> a <> 255 ->
+  code_of a = a /\ gt_of a = Some a /\ 0 <= a < 255.
+Proof. exact index_written. Qed.
+Print Assumptions C07_index_written.
+
+(* ... and every index, the missing value included, comes back from both codecs *)
+Theorem C07_index_decodes :
+  forall na a, allele_domb na a = true -> na <= 255 ->
+  cast8 (m9 (code_of a)) = a /\ cast8 (oz (gt_of a)) = a.
+Proof. exact index_decodes. Qed.
+Print Assumptions C07_index_decodes.
+
+(* whatever way the GT of an index is chosen: if every uint8 value is to come back, no index
+   below 255 may be written as "." *)
+Theorem C07_gt_encoder_must_write :
+  forall enc : Z -> option Z,
+  (forall a, 0 <= a <= 255 -> cast8 (oz (enc a)) = a) ->
+  forall a, 0 <= a < 255 -> exists k, enc a = Some k /\ k mod 256 = a.
+Proof. exact gt_encoder_must_write. Qed.
+Print Assumptions C07_gt_encoder_must_write.
+
+(* the narrowing of the indices to a signed 8-bit integer before the test for "missing" is
+   exact below 128 (why matrices with a handful of alleles cannot tell) and loses every index
+   128..254: it is read back as missing *)
+Theorem C07_narrow_low : forall a, 0 <= a < 128 -> gt_of_narrow a = gt_of a.
+Proof. exact narrow_low. Qed.
+Print Assumptions C07_narrow_low.
+
+Theorem C07_narrow_refuted :
+  forall a, 128 <= a < 255 -> cast8 (oz (gt_of_narrow a)) = 255 /\ cast8 (oz (gt_of a)) = a.
+Proof. exact narrow_refuted. Qed.
+Print Assumptions C07_narrow_refuted.
+
+(* inside the domain of positions (1 .. 2^31 - 1 with the last base of REF at or below
+   2^31 - 1; PGEN: below 2^31 - 1) and of allele counts nothing is refused *)
+Theorem C07_write_guard_domain :
+  forall (pgen half : bool) (g : geno),
+  geno_domb0 half g = true -> pos_domb pgen g = true -> write_guard pgen g = None.
+Proof. exact write_guard_domain. Qed.
+Print Assumptions C07_write_guard_domain.
+
+(* the round trips for the whole of write (pysam's and pgenlib's refusals included) *)
+Theorem C07_pgen_roundtrip_guarded :
+  forall (paccept : Z -> batch -> bool) (pload : scall -> scall) (g : geno) (cw cr : option Z),
+  paccept_complete paccept -> pload_contract pload ->
+  geno_domb false g = true -> pos_domb true g = true -> chunk_dom cw -> chunk_dom cr ->
+  exists g', pgen_roundtrip_g paccept pload false cw cr g = Ok g' /\ rt_rel g g'.
+Proof. exact pgen_roundtrip_g_spec. Qed.
+Print Assumptions C07_pgen_roundtrip_guarded.
+
+Theorem C07_pgen_chunking_irrelevant_guarded :
+  forall (paccept : Z -> batch -> bool) (pload : scall -> scall) (g : geno) (cw cr cw' cr' : option Z),
+  paccept_complete paccept -> paccept_sound paccept ->
+  chunk_dom cw -> chunk_dom cr -> chunk_dom cw' -> chunk_dom cr' ->
+  pgen_roundtrip_g paccept pload false cw cr g = pgen_roundtrip_g paccept pload false cw' cr' g.
+Proof. exact pgen_chunking_irrelevant_g. Qed.
+Print Assumptions C07_pgen_chunking_irrelevant_guarded.
+
+Theorem C07_pgen_empty_roundtrip_guarded :
+  forall (paccept : Z -> batch -> bool) (pload : scall -> scall) (g : geno) (cw cr : option Z) (legacy : bool),
+  g_variants g = [] ->
+  pgen_roundtrip_g paccept pload legacy cw cr g = Ok (mkg (g_samples g) [] [] [lenZ (g_samples g); 0; 3]).
+Proof. exact pgen_empty_roundtrip_g. Qed.
+Print Assumptions C07_pgen_empty_roundtrip_guarded.
+
+Theorem C07_vcf_roundtrip_guarded :
+  forall (vload : vcall -> Z * Z * Z) (hts : htslib) (g : geno) (fmt : vfmt) (idx : vidx),
+  vload_contract vload -> hts_iter_contract hts ->
+  geno_domb true g = true -> pos_domb false g = true -> 1 <= lenZ (g_variants g) ->
+  vcf_roundtrip_g vload hts false false fmt idx g
+  = Ok (mkg (g_samples g) (g_variants g) (map (map (norm_call (planes g))) (g_rows g))
+            [lenZ (g_samples g); lenZ (g_variants g); 3])
+  /\ exists g', vcf_roundtrip_g vload hts false false fmt idx g = Ok g' /\ rt_rel g g'.
+Proof. exact vcf_roundtrip_g_spec. Qed.
+Print Assumptions C07_vcf_roundtrip_guarded.
+
+Theorem C07_vcf_format_index_irrelevant_guarded :
+  forall (vload : vcall -> Z * Z * Z) (hts : htslib) (legacy0 : bool) (g : geno)
+         (fmt : vfmt) (idx : vidx) (fmt' : vfmt) (idx' : vidx),
+  hts_iter_contract hts ->
+  vcf_roundtrip_g vload hts false legacy0 fmt idx g = vcf_roundtrip_g vload hts false legacy0 fmt' idx' g.
+Proof. exact vcf_format_index_irrelevant_g. Qed.
+Print Assumptions C07_vcf_format_index_irrelevant_guarded.
+
+Theorem C07_vcf_empty_roundtrip_guarded :
+  forall (vload : vcall -> Z * Z * Z) (hts : htslib) (g : geno) (fmt : vfmt) (idx : vidx),
+  hts_iter_contract hts -> geno_domb0 true g = true -> pos_domb false g = true ->
+  g_samples g = [] \/ g_variants g = [] ->
+  vcf_roundtrip_g vload hts false false fmt idx g = Ok (mkg (g_samples g) (g_variants g) [] [0; 0; 0])
+  /\ empty_rel g (mkg (g_samples g) (g_variants g) [] [0; 0; 0]).
+Proof. exact vcf_empty_roundtrip_g. Qed.
+Print Assumptions C07_vcf_empty_roundtrip_guarded.
+
+(* beyond the domain: a record whose last base lies beyond 2^31 - 1 (any position a uint32
+   holds) makes both writers fail with OverflowError, whatever else the matrix contains ... *)
+Theorem C07_vcf_refused_beyond :
+  forall (vload : vcall -> Z * Z * Z) (hts : htslib) (legacy legacy0 : bool) (fmt : vfmt) (idx : vidx)
+         (g : geno) (v : variant),
+  In v (g_variants g) ->
+  0 <= v_pos v < two32 -> 1 <= v_reflen v <= int_max -> int_max < v_pos v + v_reflen v - 1 ->
+  vcf_roundtrip_g vload hts legacy legacy0 fmt idx g = Err E_Overflow.
+Proof. exact vcf_refused_beyond. Qed.
+Print Assumptions C07_vcf_refused_beyond.
+
+Theorem C07_pgen_refused_beyond :
+  forall (paccept : Z -> batch -> bool) (legacy : bool) (cw : option Z) (g : geno) (v : variant),
+  In v (g_variants g) ->
+  0 <= v_pos v < two32 -> 1 <= v_reflen v <= int_max -> int_max < v_pos v + v_reflen v - 1 ->
+  pgen_write_g paccept legacy cw g = Err E_Overflow.
+Proof. exact pgen_refused_beyond. Qed.
+Print Assumptions C07_pgen_refused_beyond.
+
+(* ... position 0 likewise (the uint32 start wraps) ... *)
+Theorem C07_pos_zero_refused :
+  forall (pgen : bool) (g : geno) (v : variant),
+  In v (g_variants g) -> v_pos v = 0 -> write_guard pgen g = Some E_Overflow.
+Proof. exact pos_zero_refused. Qed.
+Print Assumptions C07_pos_zero_refused.
+
+(* ... and PGEN also refuses position 2^31 - 1 and more than 255 alleles (RuntimeError of
+   pgenlib's .pvar reader) *)
+Theorem C07_pgen_refused_by_pvar :
+  forall (paccept : Z -> batch -> bool) (legacy : bool) (cw : option Z) (g : geno),
+  forallb pos_fits (g_variants g) = true ->
+  (exists v, In v (g_variants g) /\ v_pos v = int_max) \/ 255 < max_allele_ct (g_variants g) ->
+  pgen_write_g paccept legacy cw g = Err E_Runtime.
+Proof. exact pgen_refused_by_pvar. Qed.
+Print Assumptions C07_pgen_refused_by_pvar.
+
+Theorem C07_allele_limit_tight :
+  geno_domb0 true g_256 = false
+  /\ vcf_write g_256 = mkvf [0] [(mkvar 0 0 10 (zrange 0 256) 1, [(None, None, true)])]
+  /\ pgen_write_g paccept_std false None g_256 = Err E_Runtime
+  /\ geno_domb0 true (mkg [0] [mkvar 0 0 10 (zrange 0 255) 1] [[(254, 254, 1)]] [1; 1; 3]) = true
+  /\ exists pf, pgen_write_g paccept_std false None (mkg [0] [mkvar 0 0 10 (zrange 0 255) 1] [[(254, 254, 1)]] [1; 1; 3]) = Ok pf.
+Proof. exact allele_limit_tight. Qed.
+Print Assumptions C07_allele_limit_tight.
+
+Theorem C07_position_limits_tight :
+  write_guard false (g_pos 2147483647) = None /\ write_guard true (g_pos 2147483647) = Some E_Runtime
+  /\ write_guard false (g_pos 2147483646) = None /\ write_guard true (g_pos 2147483646) = None
+  /\ write_guard false (g_pos 2147483648) = Some E_Overflow /\ write_guard true (g_pos 2147483648) = Some E_Overflow
+  /\ write_guard false (g_pos 0) = Some E_Overflow /\ write_guard false (g_pos 4294967295) = Some E_Overflow
+  /\ pos_domb false (g_pos 2147483647) = true /\ pos_domb true (g_pos 2147483647) = false
+  /\ pos_domb true (g_pos 2147483646) = true /\ pos_domb false (g_pos 2147483648) = false.
+Proof. exact position_limits_tight. Qed.
+Print Assumptions C07_position_limits_tight.
+
+Theorem C07_wide_hypotheses_satisfiable :
+  let g := mkg [0; 1] [mkvar 0 0 2147483646 (zrange 0 255) 1] [[(254, 128, 0); (127, 255, 1)]] [2; 1; 3] in
+  geno_domb true g = true /\ pos_domb true g = true /\ pos_domb false g = true
+  /\ geno_domb false (mkg [0] [mkvar 0 0 1 (zrange 0 255) 1] [[(254, 128, 0)]] [1; 1; 3]) = true.
+Proof. exact wide_hypotheses_satisfiable. Qed.
+Print Assumptions C07_wide_hypotheses_satisfiable.
+
+(* the number of alleles a reader of the written .pvar finds per variant is the number the
+   writer declares to pgenlib (the .pgen agrees with the .pvar), for any number of alleles *)
+Theorem C07_pvar_cts_agree :
+  forall (meta : list (list str)) (vs : list (tvariant * list str)),
+  forallb meta_row meta = true -> forallb tvariant_ok (map fst vs) = true ->
+  bind (pvar_read_rows (pvar_rows meta vs)) (fun r => Ok (pvar_allele_cts r))
+  = Ok (map (fun v => Z.max 2 (lenZ (t_alleles v))) (map fst vs)).
+Proof. exact pvar_cts_agree. Qed.
+Print Assumptions C07_pvar_cts_agree.
+
+(* the compact literals of the harness decode to what their names say *)
+Theorem C07_zrange_spec :
+  forall a n, 0 <= n -> lenZ (zrange a n) = n
+  /\ forall i, 0 <= i < n -> nth_error (zrange a n) (Z.to_nat i) = Some (a + i).
+Proof. exact zrange_spec. Qed.
+Print Assumptions C07_zrange_spec.
+
+Theorem C07_rle_spec :
+  forall (A : Type) (n : Z) (x : A) (r : list (Z * A)),
+  rle ((n, x) :: r) = repeat x (Z.to_nat n) ++ rle r /\ @rle A [] = [].
+Proof. exact rle_spec. Qed.
+Print Assumptions C07_rle_spec.
+
+Theorem C07_vrun_spec :
+  forall id chrom pos step al rl n, 0 <= n -> lenZ (vrun id chrom pos step al rl n) = n
+  /\ forall i, 0 <= i < n ->
+       nth_error (vrun id chrom pos step al rl n) (Z.to_nat i) = Some (mkvar (id + i) chrom (pos + step * i) al rl).
+Proof. exact vrun_spec. Qed.
+Print Assumptions C07_vrun_spec.
+
+(* ---- the _prephased attribute on the writing / reading object ----------------------------- *)
+
+Theorem C07_same_alleles_spec :
+  forall g g', same_alleles g g' = true <-> alleles_rel g g'.
+Proof. exact same_alleles_spec. Qed.
+Print Assumptions C07_same_alleles_spec.
+
+Theorem C07_same_back_spec :
+  forall wpre rpre g g', same_back wpre rpre g g' = true <-> back_rel wpre rpre g g'.
+Proof. exact same_back_spec. Qed.
+Print Assumptions C07_same_back_spec.
+
+(* what holds = true means for every setting of the two attributes (the theorems
+   C07_holds_pgen_sound / C07_holds_vcf_sound are the case where both are unset) *)
+Theorem C07_holds_pgen_sound_prephased :
+  forall k, holds_pgen k = true ->
+  geno_domb false (pc_g k) = true -> pos_domb true (pc_g k) = true ->
+  chunk_dom (pc_cw k) -> chunk_dom (pc_cr k) -> g_variants (pc_g k) <> [] ->
+  exists g', pc_back k = Ok g' /\ back_rel (pc_wpre k) (pc_rpre k) (pc_g k) g'.
+Proof. exact holds_pgen_sound_pre. Qed.
+Print Assumptions C07_holds_pgen_sound_prephased.
+
+Theorem C07_holds_vcf_sound_prephased :
+  forall k, holds_vcf k = true -> geno_domb0 true (vc_g k) = true -> pos_domb false (vc_g k) = true ->
+  g_samples (vc_g k) <> [] -> g_variants (vc_g k) <> [] ->
+  exists g', vc_back k = Ok g' /\ back_rel (vc_wpre k) (vc_rpre k) (vc_g k) g'.
+Proof. exact holds_vcf_sound_pre. Qed.
+Print Assumptions C07_holds_vcf_sound_prephased.
+
+(* dropping the phase plane of an object that satisfies the round-trip relation leaves one that
+   satisfies the relation on the alleles *)
+Theorem C07_drop_phase_alleles :
+  forall g g', rt_rel g g' -> alleles_rel g (drop_phase g').
+Proof. exact drop_phase_alleles. Qed.
+Print Assumptions C07_drop_phase_alleles.
+
+(* the model's round trips satisfy that demand for every setting of the two attributes *)
+Theorem C07_pgen_roundtrip_prephased :
+  forall (paccept : Z -> batch -> bool) (pload : scall -> scall) (g : geno) (cw cr : option Z) (wpre rpre : bool),
+  paccept_complete paccept -> pload_contract pload ->
+  geno_domb false g = true -> pos_domb true g = true -> chunk_dom cw -> chunk_dom cr ->
+  exists g', pgen_roundtrip_g paccept pload false cw cr (written wpre g) = Ok g'
+    /\ back_rel wpre rpre g (as_read rpre g').
+Proof. exact pgen_roundtrip_pre. Qed.
+Print Assumptions C07_pgen_roundtrip_prephased.
+
+Theorem C07_vcf_roundtrip_prephased :
+  forall (vload : vcall -> Z * Z * Z) (hts : htslib) (g : geno) (fmt : vfmt) (idx : vidx) (wpre rpre : bool),
+  vload_contract vload -> hts_iter_contract hts ->
+  geno_domb true g = true -> pos_domb false g = true -> 1 <= lenZ (g_variants g) ->
+  exists g', vcf_roundtrip_g vload hts false false fmt idx (written wpre g) = Ok g'
+    /\ back_rel wpre rpre g (as_read rpre g').
+Proof. exact vcf_roundtrip_pre. Qed.
+Print Assumptions C07_vcf_roundtrip_prephased.
+
+(* the check of pgenlib's contract on the calls read directly from the written file means
+   the contract's relation, call by call *)
+Theorem C07_pload_okb_sound :
+  forall s l : scall, pload_okb s l = true <-> pload_rel s l.
+Proof. exact pload_okb_sound. Qed.
+Print Assumptions C07_pload_okb_sound.
